@@ -57,6 +57,8 @@ def units(tier):
             out.append((f"panel:{name}[T={T},agents={n},targets={'+'.join(sub) or 'none'}]", "u_panel", {"spec": (name, kw), "n": n, "targets": sub}))
     # continuous initial states supplied as an integer array (dtype handling when the panel is assembled)
     out.append(("panel:TA[T=3,agents=2,int_init,targets=inc+utility+next_w]", "u_panel", {"spec": ("TA", dict(T=3, int_init=True)), "n": 2, "targets": ["inc", "utility", "next_w"]}))
+    # a target that is not elementwise on arrays (jnp.sum(jnp.array([w, inc]))): must be evaluated per row
+    out.append(("panel:TA[T=2,agents=3,vec_aux,targets=coh+inc]", "u_panel", {"spec": ("TA", dict(T=2, vec_aux=True)), "n": 3, "targets": ["coh", "inc"]}))
     return out
 
 
